@@ -266,6 +266,13 @@ func ruleRelease(c *Check, rule string, w *walkerInfo) {
 				}
 			}
 		}
+		// (3b) every iteration examines the dependency: no path around the completion lookup
+		if lp.IterationCanSkip(func(in ssa.Instruction) bool {
+			lk, ok := in.(*ssa.Lookup)
+			return ok && lk.CommaOk && engine.TypeKey(lk.X.Type()) == "dag.CompletionMap"
+		}, nil) {
+			problem = "an iteration can skip a dependency without looking its completion up (conditional `continue`): dependencies of the skipped kind (e.g. aliases) no longer hold the dependant back"
+		}
 		// (4) early exits must come from bad paths only
 		for b := range lp.Body {
 			if b == lp.Header {
